@@ -16,6 +16,8 @@
   = some out` means "the standard defines the output and it is `out`".
 -/
 import IgrisModel.C06.Lemmas
+import IgrisModel.C06.LemGrammar2
+import IgrisModel.C06.LemN
 namespace Igris.C06
 open Iso
 
@@ -440,6 +442,202 @@ theorem snprintf_overflow_orig_witness :
     snprintf [] 0 [] [] = some ([], 0) := by
   refine ⟨?_, ?_, ?_, ?_⟩ <;> decide
 
+
+/-- round 3, the return-value clause for EVERY entry point at once: whenever
+the engine finishes with `out`, each of vsprintf / sprintf / vsnprintf /
+snprintf (any size `n` the destination really has, also 0) / vfdprintf /
+fdprintf (no write error) returns the same number — the length of the whole
+output, i.e. for a truncating snprintf the count that WOULD have been written -/
+theorem entry_points_return_same_count (mem : List Char) (n : Nat) (fmt : List Char) (args : List Arg)
+    (out : List Char) (pc : Int) (err : Int) (h : printf fmt args = .done out pc) (hn : n ≤ mem.length) :
+    pc = out.length ∧
+    (vsprintf fmt args).map (·.2) = some (out.length : Int) ∧
+    (sprintf fmt args).map (·.2) = some (out.length : Int) ∧
+    (vsnprintf mem n fmt args).map (·.2) = some (out.length : Int) ∧
+    (snprintf mem n fmt args).map (·.2) = some (out.length : Int) ∧
+    (vfdprintf none err fmt args).map (·.2) = some (out.length : Int) ∧
+    (fdprintf none err fmt args).map (·.2) = some (out.length : Int) := by
+  have hc := printf_count _ _ _ _ h
+  subst hc
+  refine ⟨rfl, ?_, ?_, ?_, ?_, ?_, ?_⟩
+  · simp [vsprintf, h]
+  · simp [sprintf, vsprintf, h]
+  · rw [vsnprintf_spec mem n fmt args out _ h hn]; rfl
+  · rw [snprintf_spec mem n fmt args out _ h hn]; rfl
+  · simp [vfdprintf, h]
+  · simp [fdprintf, vfdprintf, h]
+
+/-! ## round 3: the domain of the ISO reference, exactly (audit item 1) -/
+
+/-- the generative grammar is EXACTLY the domain of `isoFormat` (the converse
+of `iso_defined_of_grammar`): ISO defines the output iff the format is the
+rendering of a sequence of literal pieces and well formed directive records
+whose options ISO defines for the conversion and whose arguments have the right
+types -/
+theorem iso_defined_iff_grammar (pfmt : Nat → List Char) (fmt : List Char) (args : List Arg) :
+    (isoFormat pfmt fmt args).isSome ↔ IsoDefined fmt args := by
+  constructor
+  · intro h
+    cases ho : isoFormat pfmt fmt args with
+    | none => rw [ho] at h; cases h
+    | some out =>
+      obtain ⟨segs, hr, ha⟩ := defined_grammarS pfmt false _ fmt args out ho
+      exact ⟨segs, hr, by rw [← segsAcceptS_false]; exact ha⟩
+  · exact iso_defined_of_grammar pfmt fmt args
+
+/-- TOTALITY of `printf_matches_iso_partial`: the domain of `isoFormatExcl` is
+exactly `IsoSupported` (Grammar2.lean: the grammar of `IsoDefined` minus the two
+former finding classes, stated on the directive record and the argument list —
+no parser involved) -/
+theorem iso_supported_iff (pfmt : Nat → List Char) (fmt : List Char) (args : List Arg) :
+    (isoFormatExcl pfmt fmt args).isSome ↔ IsoSupported fmt args := by
+  constructor
+  · intro h
+    cases ho : isoFormatExcl pfmt fmt args with
+    | none => rw [ho] at h; cases h
+    | some out => exact defined_grammarS pfmt true _ fmt args out ho
+  · rintro ⟨segs, hr, ha⟩
+    subst hr
+    exact grammarS_defined pfmt true segs args ha _ (Nat.le_refl _)
+
+/-- both predicates are decidable (by the two theorems above) -/
+instance (fmt : List Char) (args : List Arg) : Decidable (IsoSupported fmt args) :=
+  decidable_of_iff _ (iso_supported_iff igrisPtr fmt args)
+
+instance (fmt : List Char) (args : List Arg) : Decidable (IsoDefined fmt args) :=
+  decidable_of_iff _ (iso_defined_iff_grammar igrisPtr fmt args)
+
+/-- the supported inputs are ISO-defined inputs -/
+theorem iso_supported_sub (fmt : List Char) (args : List Arg) (h : IsoSupported fmt args) : IsoDefined fmt args := by
+  have h1 := (iso_supported_iff igrisPtr fmt args).mpr h
+  cases ho : isoFormatExcl igrisPtr fmt args with
+  | none => rw [ho] at h1; cases h1
+  | some out =>
+    exact (iso_defined_iff_grammar igrisPtr fmt args).mp (by rw [isoFormatExcl_sub _ _ _ _ ho]; rfl)
+
+/-- the first round's statement without a hypothesis about `isoFormatExcl` -/
+theorem printf_iso_on_supported (fmt : List Char) (args : List Arg) (h : IsoSupported fmt args) :
+    ∃ out, isoFormatExcl igrisPtr fmt args = some out ∧ printf fmt args = .done out out.length := by
+  have hs := (iso_supported_iff igrisPtr fmt args).mpr h
+  cases ho : isoFormatExcl igrisPtr fmt args with
+  | none => rw [ho] at hs; cases hs
+  | some out => exact ⟨out, rfl, printf_matches_iso_partial fmt args out ho⟩
+
+/-- everything the property text lists is inside: each conversion d i u o x X
+c s p %, each flag - + space # 0, literal width and precision, `*` for both
+(also negative), each length modifier hh h l ll j z t -/
+theorem iso_supported_covers_property_text :
+    IsoSupported "%d|%i|%u|%o|%x|%X|%c|%s|%p|%%".toList
+      [.int 1, .int (-1), .int 2, .int 8, .int 255, .int 255, .int 65, .str ['h', 'i', NUL], .ptr 4096] ∧
+    IsoSupported "%-5d|%+d|% d|%#x|%#o|%#X|%05d|%-+8i|%- 8i".toList
+      [.int 1, .int 2, .int 3, .int 4, .int 5, .int 6, .int 7, .int 8, .int 9] ∧
+    IsoSupported "%8.3d|%.0u|%12s|%.2s|%-4c|%20p|%3.1x".toList
+      [.int 5, .int 0, .str ['a', NUL], .str ['a', 'b', 'c'], .int 66, .ptr 0, .int 7] ∧
+    IsoSupported "%*d|%.*d|%*.*u|%-*s|%.*s|%*c|%*p".toList
+      [.int 6, .int 1, .int (-1), .int 2, .int (-6), .int 3, .int 4, .int (-5), .str ['x', NUL],
+       .int 1, .str ['y', 'z'], .int 3, .int 67, .int 20, .ptr 1] ∧
+    IsoSupported "%hhd|%hd|%ld|%lld|%jd|%zd|%td".toList
+      [.int 300, .int 70000, .long 1, .long (-1), .long 2, .long 3, .long 4] ∧
+    IsoSupported "%hhu|%hx|%lo|%llX|%ju|%zx|%to|%#llx|%+ld".toList
+      [.int 300, .int 70000, .long 1, .long 2, .long 3, .long 4, .long 5, .long 6, .long 7] := by
+  refine ⟨?_, ?_, ?_, ?_, ?_, ?_⟩ <;> decide
+
+/-! ## round 3: `%n`, and `pc` / width / precision as C `int`s (`printfN`, Model.lean) -/
+
+/-- the value returned by the `int`-accurate engine is the number of characters
+handed to the callback AND it is a value of type `int`: no `int` computation
+overflowed on the way (below the bound the unbounded `pc` of `printf` is the C
+`pc`) -/
+theorem printfN_count (fmt : List Char) (args : List Arg) (out : List Char) (pc : Int) (st : List NStore)
+    (h : printfN fmt args = .done out pc st) : pc = out.length ∧ pc ≤ INT_MAX :=
+  let r := loopN_inv _ fmt args [] 0 [] out pc st rfl (by decide) (by simp) h
+  ⟨r.1, r.2.1⟩
+
+/-- ISO 7.21.6.1p8 `n`: "the argument shall be a pointer to signed integer into
+which is written the number of characters written to the output stream so far
+by this call" — every store carries the number of callback calls made before it
+(`emitted`, counted on the output list, not on `pc`), converted to the type the
+length modifier names -/
+theorem printfN_n_stores_count (fmt : List Char) (args : List Arg) (out : List Char) (pc : Int) (st : List NStore)
+    (h : printfN fmt args = .done out pc st) :
+    ∀ s ∈ st, s.val = s.emitted % 2 ^ (8 * s.size) ∧ s.emitted ≤ out.length := by
+  intro s hs
+  obtain ⟨h1, h2⟩ := (loopN_inv _ fmt args [] 0 [] out pc st rfl (by decide) (by simp) h).2.2.1 s hs
+  refine ⟨?_, h2⟩
+  unfold NStore.val
+  rw [h1]
+  have : ((s.emitted : Int) % (2 : Int) ^ (8 * s.size)) = ((s.emitted % 2 ^ (8 * s.size) : Nat) : Int) := by
+    rw [Int.natCast_emod, Int.natCast_pow]; rfl
+  rw [this, Int.toNat_natCast]
+
+/-- a run of `printfN` that stored nothing (no `n` conversion) is the run of
+`printf`: same characters, same value -/
+theorem printfN_refines_printf (fmt : List Char) (args : List Arg) (out : List Char) (pc : Int)
+    (h : printfN fmt args = .done out pc []) : printf fmt args = .done out pc :=
+  loopN_refines _ fmt args [] 0 out pc h
+
+/-- conversely every finished run of `printf` is the run of `printfN` — unless
+an `int` computation overflows (`atoi` of a literal beyond INT_MAX, `-INT_MIN`,
+more than INT_MAX characters), which is all `printf`'s unbounded arithmetic
+hides -/
+theorem printf_done_printfN (fmt : List Char) (args : List Arg) (out : List Char) (pc : Int)
+    (h : printf fmt args = .done out pc) :
+    printfN fmt args = .done out pc [] ∨ printfN fmt args = .intovf :=
+  loop_to_loopN _ fmt args [] 0 [] out pc h
+
+/-- BELOW THE BOUND: when the whole output has at most INT_MAX characters and no
+directive met on the way has a literal width/precision beyond INT_MAX or a `*`
+width of INT_MIN (`guardFree`; by `literal_number_fits` every literal of at most
+9 digits is fine), the `int`-accurate engine finishes with exactly what the
+unbounded model computes: there the model's `Int` IS the C `int` -/
+theorem printfN_below_bound (fmt : List Char) (args : List Arg) (out : List Char) (pc : Int)
+    (h : printf fmt args = .done out pc) (hb : (out.length : Int) ≤ INT_MAX)
+    (hg : guardFree (fmt.length + 1) fmt args = true) :
+    printfN fmt args = .done out pc [] :=
+  loop_to_loopN_below _ fmt args [] 0 [] out pc rfl h hb hg
+
+/-- the `int` computations INSIDE print_i (`min_len + prefix_len`, `… - len -
+prefix_len`, `width - len - prefix_len - zero_count`, `pc` after every `pc +=`;
+`printIInts` lists them in the order of the C text): whenever the value print_i
+returns fits an `int` — and `loopN` answers `intovf` otherwise — every one of
+them fits too (width and precision are nonnegative `int`s when `__printf` calls
+print_i).  So the guards of `printfN` (atoi, `-width`, the loop's `pc`) cover
+every signed overflow of the integer path -/
+theorem print_i_ints_in_range (u : BitVec 64) (isSigned : Bool) (width minLen : Int) (ops : Ops) (base : Nat)
+    (out : List Char) (pc : Int) (h : printI u isSigned width minLen ops base = some (out, pc))
+    (hw0 : 0 ≤ width) (hw : width ≤ INT_MAX) (hm0 : 0 ≤ minLen) (hpc : pc ≤ INT_MAX) :
+    ∀ x ∈ printIInts u isSigned width minLen ops base, -INT_MAX - 1 ≤ x ∧ x ≤ INT_MAX :=
+  printI_ints_range u isSigned width minLen ops base out pc h hw0 hw hm0 hpc
+
+/-- `printfN` terminates too -/
+theorem printfN_terminates (fmt : List Char) (args : List Arg) : printfN fmt args ≠ .diverged :=
+  loopN_no_diverge _ fmt args [] 0 [] (Nat.lt_succ_self _)
+
+/-- AT the bound: with INT_MAX characters out one more `++pc` is a signed
+overflow, one below it is not; a literal width of 2^31 and a `*` width of
+INT_MIN are outside `int` (INT_MAX / −INT_MAX are inside); `%n` through `hh`
+stores the count modulo 256 -/
+theorem printfN_int_range_witness :
+    loopN 2 ['a'] [] [] INT_MAX [] = .intovf ∧
+    loopN 2 ['a'] [] [] (INT_MAX - 1) [] = .done ['a'] INT_MAX [] ∧
+    printfN "%2147483648d".toList [.int 1] = .intovf ∧
+    printfN "%.2147483648d".toList [.int 1] = .intovf ∧
+    printfN "%*d".toList [.int (BitVec.intMin 32), .int 1] = .intovf ∧
+    intGuard "%2147483647d".toList [.int 1] = false ∧
+    intGuard "%*d".toList [.int (BitVec.ofInt 32 (-2147483647)), .int 1] = false ∧
+    printfN "ab%hhn%nc".toList [.ptr 16, .ptr 32]
+      = .done ['a', 'b', 'c'] 3 [⟨16, 1, 2, 2⟩, ⟨32, 4, 2, 2⟩] := by
+  refine ⟨?_, ?_, ?_, ?_, ?_, ?_, ?_, ?_⟩ <;> decide
+
+/-- `%lc` / `%ls`: the code ignores the `l` (TODO in the source): the bytes of
+the wide string L"ab" (little-endian `wchar_t`) are read as a `char` string —
+ISO prints `ab`, igris prints `a` (recorded finding C06-wide-ls); a `%lc` of an
+ASCII character prints it, as ISO's `wcrtomb` does in the C locale -/
+theorem printf_ls_wide_witness :
+    printf "%ls".toList [.str ['a', NUL, NUL, NUL, 'b', NUL, NUL, NUL, NUL, NUL, NUL, NUL]] = .done ['a'] 1 ∧
+    printf "%lc".toList [.int 65] = .done ['A'] 1 := by
+  constructor <;> decide
+
 /-! ## non-vacuity: the hypotheses above are satisfiable on non-trivial inputs -/
 
 -- a format with literal text, flags, `*` width, precision, length modifier, string with precision
@@ -485,5 +683,26 @@ example : snprintf ['x', 'x', 'x', 'y', 'z'] 3 "%s=%d".toList [.str ['a', 'b', N
 -- printf_matches_iso on the former finding classes
 example : isoFormat igrisPtr "[%#x|%#5o|%-3c]".toList [.int 0, .int 0, .int 0]
       = some ['[', '0', '|', ' ', ' ', ' ', ' ', '0', '|', NUL, ' ', ' ', ']'] := by decide
+
+-- round 3: IsoSupported / IsoDefined (decidable now); the former classes are outside IsoSupported, inside IsoDefined
+example : IsoSupported "%-*.3lld|%#x".toList [.int 8, .long (BitVec.ofInt 64 (-42)), .int 255] := by decide
+example : ¬ IsoSupported "%#x".toList [.int 0] ∧ IsoDefined "%#x".toList [.int 0] ∧
+    ¬ IsoSupported "%c".toList [.int 256] ∧ IsoDefined "%c".toList [.int 256] ∧
+    ¬ IsoDefined "%lc".toList [.int 65] ∧ ¬ IsoDefined "%#d".toList [.int 1] ∧ ¬ IsoDefined "%5%".toList [] := by
+  refine ⟨?_, ?_, ?_, ?_, ?_, ?_, ?_⟩ <;> decide
+
+-- print_i_ints_in_range: `%+08.3d` of 42 — the ints print_i computes
+example : printIInts 42 true 8 3 { sign := true, zero := true, prec := true } 10
+    = [1, 2, 4, 2, 1, 1, 6, 5, 4, 4, 4, 5, 6, 8, 8] := by decide
+
+-- printfN_below_bound: the guard holds on an ordinary format, fails on a 10-digit literal
+example : guardFree 30 "a=%-*.3lld|%+05d|%.2s".toList
+    [.int 8, .long (BitVec.ofInt 64 (-42)), .int 7, .str ['x', 'y', 'z']] = true := by decide
+example : guardFree 20 "%4294967301d".toList [.int 1] = false := by decide
+
+-- printfN_count / printfN_n_stores_count / printfN_refines_printf: a finished run with a store, one without
+example : printfN "x=%d%n|".toList [.int 42, .ptr 8] = .done "x=42|".toList 5 [⟨8, 4, 4, 4⟩] := by decide
+example : printfN "x=%5d|".toList [.int 42] = .done "x=   42|".toList 8 [] := by decide
+example : printf "x=%5d|".toList [.int 42] = .done "x=   42|".toList 8 := by decide
 
 end Igris.C06
